@@ -22,11 +22,16 @@ Canon(t) == LET nb == SelectSeq(t, LAMBDA c : ~ IsBlank(c))
 
 IsDigit(c) == c >= 48 /\ c <= 57
 \* a literal (1.0, 2.0_r_def, -1, .5): denotes a value, not a data object
+\* x_direction / y_direction: named constants of the LFRic infrastructure (the
+\* stencil directions); like literals they are not passed through the routine
+cXDir == <<120, 95, 100, 105, 114, 101, 99, 116, 105, 111, 110>>
+cYDir == <<121, 95, 100, 105, 114, 101, 99, 116, 105, 111, 110>>
 IsLiteralText(t) == LET c == Canon(t) IN
     /\ Len(c) > 0
     /\ \/ IsDigit(c[1])
        \/ /\ c[1] \in {43, 45, 46}          \* + - .
           /\ Len(c) > 1
+       \/ c \in {cXDir, cYDir}
 
 \* kernel argument provenance: [t |-> "d", n |-> dummy name]  (data taken from
 \* that PSy dummy) or [t |-> "l", v |-> literal text]
@@ -72,8 +77,28 @@ ActualsFromInvoke(acts, orig) ==
 NameDefined(call, subs) ==
     Cardinality({i \in DOMAIN subs : Canon(subs[i]) = Canon(call)}) = 1
 
+\* kinds of invoke arguments (okinds[k][j], from the kernel signature) and the
+\* Fortran type class a dummy must be declared with for argument association
+KindClass(kind) == CASE kind = "field" -> "field"
+                     [] kind = "real"  -> "real"
+                     [] kind \in {"int", "extent", "dir"} -> "integer"
+                     [] kind = "qr"    -> "qr"
+                     [] OTHER -> "other"
+KindsOfText(t, orig, okinds) ==
+    {okinds[k][j] : <<k, j>> \in {<<k, j>> \in (DOMAIN orig) \X (1..20) :
+                                    j \in DOMAIN orig[k] /\ Canon(orig[k][j]) = Canon(t)}}
+\* position i of the call: the declared type class of the i-th dummy is the
+\* class of the object written as the i-th actual (undecided if that text is
+\* not an invoke argument: ActualsFromInvoke reports it)
+TypeOKAt(i, acts, dtypes, orig, okinds) ==
+    LET ks == KindsOfText(acts[i], orig, okinds) IN
+    ks = {} \/ \E kd \in ks : KindClass(kd) = dtypes[i]
+TypeMismatches(acts, dtypes, orig, okinds) ==
+    {i \in (DOMAIN acts) \cap (DOMAIN dtypes) : ~ TypeOKAt(i, acts, dtypes, orig, okinds)}
+
 \* the model's prediction (not required by the property; a difference is a
-\* divergence): data objects in order of first appearance
+\* divergence): data objects in order of first appearance, the stencil
+\* extents, stencil directions and quadrature objects after everything else
 RECURSIVE FirstOccs(_, _)
 FirstOccs(ts, seen) ==
     IF ts = <<>> THEN <<>>
@@ -82,7 +107,17 @@ FirstOccs(ts, seen) ==
          ELSE <<c>> \o FirstOccs(Tail(ts), seen \cup {c})
 RECURSIVE Flatten(_)
 Flatten(ss) == IF ss = <<>> THEN <<>> ELSE ss[1] \o Flatten(Tail(ss))
-PredictedActuals(orig) == FirstOccs(Flatten(orig), {})
+GroupOf(kind) == CASE kind = "extent" -> 2 [] kind = "dir" -> 3 [] kind = "qr" -> 4
+                   [] OTHER -> 1
+RECURSIVE PickGroup(_, _, _)
+PickGroup(ts, ks, g) ==
+    IF ts = <<>> THEN <<>>
+    ELSE (IF GroupOf(ks[1]) = g THEN <<ts[1]>> ELSE <<>>)
+         \o PickGroup(Tail(ts), Tail(ks), g)
+Grouped(ts, ks) == PickGroup(ts, ks, 1) \o PickGroup(ts, ks, 2)
+                   \o PickGroup(ts, ks, 3) \o PickGroup(ts, ks, 4)
+PredictedActuals(orig, okinds) ==
+    FirstOccs(Grouped(Flatten(orig), Flatten(okinds)), {})
 
 \* ------------------------------------------------------------------ Part 2
 \* names of the universe (character codes)
@@ -133,7 +168,17 @@ NS == Len(ScalarU)
 NN == Len(NameU)
 At(seq, i) == seq[(i % Len(seq)) + 1]                        \* 0-based, cyclic
 
-KCall(k, args) == [k |-> k, args |-> args]
+\* kernel signatures: the kind of every invoke argument
+Sig(k) ==
+    CASE k = "tk5" -> <<"real", "field", "field", "field", "field">>
+      [] k \in {"tk2", "setval_x", "gcopy"} -> <<"field", "field">>
+      [] k = "setval_c" -> <<"field", "real">>
+      [] k \in {"inc_a_times_x", "gssh"} -> <<"real", "field">>
+      [] k = "x_plus_y" -> <<"field", "field", "field">>
+      [] k = "tks" -> <<"field", "field", "extent", "field", "field">>
+      [] k = "tkx" -> <<"field", "field", "extent", "dir", "field", "field">>
+      [] k = "tkq" -> <<"field", "field", "field", "real", "field", "int", "qr">>
+KCall(k, args) == [k |-> k, args |-> args, kinds |-> Sig(k)]
 Inv(name, calls) == [name |-> name, calls |-> calls]
 
 \* --- pair family: every ordered pair (u, v) of field texts in 4 templates
@@ -192,6 +237,55 @@ DoubleShape(i) ==
         invokes |-> << Inv(n1, Form(f1, u, nM2, a)), Inv(n2, Form(f2, v, u, a)) >>]
 NDouble == NN * NN * 9
 
+\* --- extra family: stencil extents / directions and quadrature objects mixed
+\* with plain kernels and built-ins in one invoke, in varying order
+\* (tks = testkern_stencil_type(f, f[cross stencil], extent, f, f),
+\*  tkx = testkern_stencil_xory1d_type(f, f[xory1d], extent, direction, f, f),
+\*  tkq = testkern_qr_type(f, f, f, real, f, integer, qr))
+nN1 == <<110, 49>>            \* n1   integer
+nN2 == <<110, 50>>            \* n2
+nNv == <<110, 118>>           \* nv   integer array (2)
+nD1 == <<100, 49>>            \* d1   integer (a direction)
+nI1 == <<105, 49>>            \* i1   integer
+nQr == <<113, 114>>           \* qr   quadrature_xyoz_type
+nQr2 == <<113, 114, 50>>      \* qr2
+ExtU == << nN1, Up(nN1), nN2, Comp(nSt, nN1, FALSE), Comp(nSt, Up(nN1), TRUE),
+           Elem(nNv, 1, FALSE), Elem(nNv, 2, TRUE), <<50>> >>           \* .., literal 2
+DirU == << nD1, Up(nD1), Comp(nSt, nD1, FALSE), cXDir, cYDir >>
+QrU  == << nQr, Up(nQr), nQr2, Comp(nSt, nQr, FALSE) >>
+IntU == << nI1, Up(nI1), Comp(nSt, nI1, FALSE), <<51>> >>               \* .., literal 3
+ExtraShape(i) ==
+    LET e1 == At(ExtU, i)
+        e2 == At(ExtU, (i \div 8) + 3)
+        d  == At(DirU, i \div 3)
+        q1 == At(QrU, i \div 2)
+        q2 == At(QrU, (i \div 5) + 1)
+        a  == At(ScalarU, i)
+        n  == At(IntU, i \div 7)
+        u  == At(FieldU, i \div 11)
+        sv == (i \div 8) % 3
+        qv == (i \div 24) % 3
+        pv == (i \div 72) % 3
+        ov == (i \div 216) % 3
+        S  == CASE sv = 0 -> << KCall("tks", <<nM1, u, e1, nM2, nM3>>) >>
+                [] sv = 1 -> << KCall("tkx", <<nM1, u, e1, d, nM2, nM3>>) >>
+                [] OTHER  -> << KCall("tks", <<nM1, u, e1, nM2, nM3>>),
+                                KCall("tkx", <<nM2, nF2, e2, d, nM1, nM3>>) >>
+        Q  == CASE qv = 0 -> << KCall("tkq", <<nM1, nM2, nF2, a, nM3, n, q1>>) >>
+                [] qv = 1 -> << KCall("tkq", <<nM1, nM2, nF2, a, nM3, n, q1>>),
+                                KCall("tkq", <<nM2, nM1, nF2, a, nM3, n, q2>>) >>
+                [] OTHER  -> << KCall("tkq", <<nM1, nM2, nF2, a, nM3, n, q1>>),
+                                KCall("tks", <<nM3, nF2, e2, nM1, nM2>>) >>
+        P  == CASE pv = 0 -> << KCall("tk2", <<nM1, u>>) >>
+                [] pv = 1 -> << KCall("setval_c", <<u, a>>) >>
+                [] OTHER  -> << >>
+        calls == CASE ov = 0 -> S \o Q \o P
+                   [] ov = 1 -> Q \o S \o P
+                   [] OTHER  -> P \o Q \o S
+    IN [fam |-> "extra", api |-> "lfric", idx |-> i,
+        invokes |-> << Inv(At(NameU, i \div 4), calls) >>]
+NExtra == 8 * 3 * 3 * 3 * 3
+
 \* --- GOcean families (kernels: gcopy(f, f), gssh(s, f))
 LitGo == <<50, 46, 48, 95, 103, 111, 95, 119, 112>>          \* 2.0_go_wp
 GoScalarU == [i \in DOMAIN ScalarU |-> IF ScalarU[i] = Lit2 THEN LitGo ELSE ScalarU[i]]
@@ -222,12 +316,13 @@ NGoScalar == NS * NS
 
 CONSTANTS Api,                    \* "lfric" | "gocean" | "all"
           Stride, Offset          \* thinning of the family: every Stride-th shape
-NLfric  == NPair + NScalar + NDouble
+NLfric  == NPair + NScalar + NDouble + NExtra
 NGocean == NGoPair + NGoScalar
 LfricShape(n) ==
     IF n < NPair THEN PairShape(n)
     ELSE IF n < NPair + NScalar THEN ScalarShape(n - NPair)
-    ELSE DoubleShape(n - NPair - NScalar)
+    ELSE IF n < NPair + NScalar + NDouble THEN DoubleShape(n - NPair - NScalar)
+    ELSE ExtraShape(n - NPair - NScalar - NDouble)
 GoceanShape(n) == IF n < NGoPair THEN GoPairShape(n) ELSE GoScalarShape(n - NGoPair)
 NShapes == CASE Api = "lfric" -> NLfric [] Api = "gocean" -> NGocean
              [] OTHER -> NLfric + NGocean
@@ -235,7 +330,10 @@ ShapeAt(n) ==                      \* n in 0..NShapes-1
     CASE Api = "lfric" -> LfricShape(n)
       [] Api = "gocean" -> GoceanShape(n)
       [] OTHER -> IF n < NLfric THEN LfricShape(n) ELSE GoceanShape(n - NLfric)
-ShapeIds == {n \in 0..(NShapes - 1) : n % Stride = Offset % Stride}
+\* the extra family (expensive kernels) is thinned twice as much when thinning
+IsExtra(n) == Api # "gocean" /\ n >= NPair + NScalar + NDouble /\ n < NLfric
+StrideOf(n) == IF IsExtra(n) /\ Stride > 1 THEN 2 * Stride ELSE Stride
+ShapeIds == {n \in 0..(NShapes - 1) : n % StrideOf(n) = Offset % StrideOf(n)}
 
 \* ------------------------------------------------------------------ Part 3
 \* A generator of the two lists, parameterised by the de-duplication keys.
@@ -244,12 +342,16 @@ KeyOf(kind, t) == CASE kind = "canon" -> Canon(t)
                     [] kind = "lower" -> [i \in DOMAIN t |-> LowerC(t[i])]
                     [] OTHER -> t
 
-VARIABLES sid, inv, pos, acts, akeys, dums, dkeys, kargs
-vars == <<sid, inv, pos, acts, akeys, dums, dkeys, kargs>>
+VARIABLES sid, inv, pos, acts, akeys, dums, dkeys, kargs,
+          ninv, flat          \* number of invokes of the shape; its current argument texts
+vars == <<sid, inv, pos, acts, akeys, dums, dkeys, kargs, ninv, flat>>
 
 Calls(s, i)   == ShapeAt(s).invokes[i].calls
 OrigOf(s, i)  == [k \in DOMAIN Calls(s, i) |-> Calls(s, i)[k].args]
-FlatArgs(s, i) == Flatten(OrigOf(s, i))
+KindsOf(s, i) == [k \in DOMAIN Calls(s, i) |-> Calls(s, i)[k].kinds]
+\* the generator handles the data arguments first, then the stencil extents,
+\* directions and quadrature objects
+FlatArgs(s, i) == Grouped(Flatten(OrigOf(s, i)), Flatten(KindsOf(s, i)))
 \* a dummy is named by its number:  "d" \o digits  -> codes <<100, 48 + n>>
 DName(n) == <<100, 48 + (n \div 10), 48 + (n % 10)>>
 IndexIn(keys, x) == IF \E i \in DOMAIN keys : keys[i] = x
@@ -258,14 +360,16 @@ IndexIn(keys, x) == IF \E i \in DOMAIN keys : keys[i] = x
 Init == /\ sid \in ShapeIds
         /\ PrintT("SHAPE " \o ToJson([id |-> sid] @@ ShapeAt(sid)))
         /\ inv = 1 /\ pos = 1
+        /\ ninv = Len(ShapeAt(sid).invokes)
+        /\ flat = FlatArgs(sid, 1)
         /\ acts = <<>> /\ akeys = <<>> /\ dums = <<>> /\ dkeys = <<>>
         /\ kargs = <<>>
 
 \* process the next argument text of the current invoke
 Process ==
-    /\ inv <= Len(ShapeAt(sid).invokes)
-    /\ pos <= Len(FlatArgs(sid, inv))
-    /\ LET t == FlatArgs(sid, inv)[pos] IN
+    /\ inv <= ninv
+    /\ pos <= Len(flat)
+    /\ LET t == flat[pos] IN
        IF IsLiteralText(t)
        THEN /\ kargs' = Append(kargs, [t |-> "l", v |-> t])
             /\ UNCHANGED <<acts, akeys, dums, dkeys>>
@@ -281,14 +385,15 @@ Process ==
                                n |-> IF newd THEN DName(Len(dums) + 1)
                                      ELSE dums[IndexIn(dkeys, dk)]])
     /\ pos' = pos + 1
-    /\ UNCHANGED <<sid, inv>>
+    /\ UNCHANGED <<sid, inv, ninv, flat>>
 
 NextInvoke ==
-    /\ inv <= Len(ShapeAt(sid).invokes)
-    /\ pos > Len(FlatArgs(sid, inv))
+    /\ inv <= ninv
+    /\ pos > Len(flat)
     /\ inv' = inv + 1 /\ pos' = 1
+    /\ flat' = IF inv < ninv THEN FlatArgs(sid, inv + 1) ELSE <<>>
     /\ acts' = <<>> /\ akeys' = <<>> /\ dums' = <<>> /\ dkeys' = <<>> /\ kargs' = <<>>
-    /\ UNCHANGED sid
+    /\ UNCHANGED <<sid, ninv>>
 
 Next == Process \/ NextInvoke
 Spec == Init /\ [][Next]_vars
@@ -296,13 +401,12 @@ Spec == Init /\ [][Next]_vars
 \* prefix forms of the clauses: hold after every processed argument
 InvNoDuplicateDummies == NoDuplicateDummies(dums)
 InvPrefixAgree ==
-    inv <= Len(ShapeAt(sid).invokes) =>
-      \A p \in DOMAIN kargs :
-         BindVerdict(acts, dums, kargs[p], FlatArgs(sid, inv)[p]) = "ok"
+    inv <= ninv =>
+      \A p \in DOMAIN kargs : BindVerdict(acts, dums, kargs[p], flat[p]) = "ok"
 InvSameLength ==
-    (inv <= Len(ShapeAt(sid).invokes) /\ pos > Len(FlatArgs(sid, inv)))
-        => SameLength(acts, dums)
+    (inv <= ninv /\ pos > Len(flat)) => SameLength(acts, dums)
 InvPredicted ==
-    (inv <= Len(ShapeAt(sid).invokes) /\ pos > Len(FlatArgs(sid, inv)))
-        => [i \in DOMAIN acts |-> Canon(acts[i])] = PredictedActuals(OrigOf(sid, inv))
+    (inv <= ninv /\ pos > Len(flat))
+        => [i \in DOMAIN acts |-> Canon(acts[i])]
+           = PredictedActuals(OrigOf(sid, inv), KindsOf(sid, inv))
 ==============================================================================
